@@ -123,3 +123,65 @@ Fixpoint clean_keys (j : json) : bool :=
   | JObj l => forallb (fun kv => clean_key (fst kv) && clean_keys (snd kv)) l
   | _ => true
   end.
+
+(* ---- what an exclusion names in a given document (no condition on keys) ---- *)
+
+(* all node paths of a document, root included, in document order *)
+Fixpoint paths_of (j : json) : list path :=
+  [] :: match j with
+        | JArr l => flat_map (fun x => map (cons PAny) (paths_of x)) l
+        | JObj l =>
+            flat_map (fun kv => map (cons (PKey (fst kv))) (paths_of (snd kv))) l
+        | _ => []
+        end.
+
+Definition pstep_eqb (a b : pstep) : bool :=
+  match a, b with
+  | PKey k, PKey k' => beq k k'
+  | PAny, PAny => true
+  | _, _ => false
+  end.
+
+Fixpoint path_eqb (p q : path) : bool :=
+  match p, q with
+  | [], [] => true
+  | s :: p', t :: q' => pstep_eqb s t && path_eqb p' q'
+  | _, _ => false
+  end.
+
+(* the node paths of [j] whose text in the cursor notation is the body-relative
+   text of the exclusion [e]: every path the exclusion can be read as in j *)
+Definition named (e : bytes) (j : json) : list path :=
+  filter (fun p => beq (cursor p) (body_path e)) (paths_of j).
+
+Definition names (e : bytes) (j : json) (p : path) : Prop := In p (named e j).
+
+(* finding F-C16c: the text of the exclusion is the cursor of two DIFFERENT
+   structured paths of the document (possible only when a key contains '.' or
+   '[': ".a.b" is key "a.b" and also key "b" under key "a").  Decidable; this
+   is what the monitor's classifier computes. *)
+Definition ambiguous (e : bytes) (j : json) : bool :=
+  match named e j with
+  | [] => false
+  | p :: l => negb (forallb (path_eqb p) l)
+  end.
+
+(* a leaf the single exclusion [e] keeps in clear whatever the hash function *)
+Definition kept_by (e : bytes) (j : json) (ps : list nat) (q : path) (v : json)
+  : Prop :=
+  descend j ps = Some (q, v) /\ is_prim v = true /\
+  forall H, descend (obfuscate_json H [e] j) ps = Some (q, v).
+
+(* finding F-C16d: the exact condition under which the walk changes the
+   structure: an object that is actually walked (not inside a subtree returned
+   whole because it is excluded) repeats a key *)
+Fixpoint nodup_walked (ex : bytes -> bool) (cur : bytes) (j : json) {struct j}
+  : bool :=
+  if ex cur then true else
+  match j with
+  | JArr l => forallb (nodup_walked ex (cur ++ [c_lbr; c_rbr])) l
+  | JObj l =>
+      nodupb (map fst l)
+      && forallb (fun kv => nodup_walked ex (cur ++ c_dot :: fst kv) (snd kv)) l
+  | _ => true
+  end.
